@@ -344,6 +344,10 @@ def overlap_schedules(tier):
                 sch.append({"overlap": True, "hold": hold, "cmd": cmd, "issuer": issuer, "cmd_hold": None})
     for hold in ("handler0", "handler1", "handler2", "n:TIME_CHANGED", "n:WARMUP"):
         sch.append({"overlap": True, "hold": hold, "cmd": "stop", "issuer": "helper", "cmd_hold": "STOPPING"})
+    # two commands from the run thread itself: stop(), then a start-like command before the handler returns
+    for hold in ("handler1", "n:TIME_CHANGED"):
+        for second in ("start", "step", "rut", "init"):
+            sch.append({"overlap": True, "hold": hold, "cmd": "stop+" + second, "issuer": "run-thread", "cmd_hold": None})
     for hold in ("n:STOP-bounded",):
         sch.append({"overlap": True, "hold": hold, "cmd": "start", "issuer": "helper", "cmd_hold": "STARTING"})
         sch.append({"overlap": True, "hold": hold, "cmd": "rut", "issuer": "helper", "cmd_hold": "STARTING"})
@@ -365,6 +369,9 @@ def overlap_schedules(tier):
         keep = []
         for s in sch:
             key = (s["hold"], s["cmd"], s["issuer"], s["cmd_hold"])
+            if s["cmd"].startswith("stop+") and s["hold"] == "handler1" and s["cmd"] in ("stop+start", "stop+init"):
+                keep.append(s)
+                continue
             fast = (s["issuer"] == "helper" and s["cmd"] in ("start", "step", "init", "rut")
                     and s["hold"] in ("handler1", "n:TIME_CHANGED", "n:WARMUP", "n:STOP-bounded"))
             if fast or key in {("handler2", "stop", "helper", "STOPPING"), ("handler1", "stop", "helper", None),
@@ -405,6 +412,16 @@ def run_case(case):  # noqa: F811
 
 def _issue(sim, h, cmd):
     """execute one command, return None or the exception"""
+    if cmd.startswith("stop+"):
+        first = _issue(sim, h, "stop")
+        if first is not None:
+            return first
+        second = _issue(sim, h, cmd[5:])
+        if second is None:
+            # stop() was issued from the run thread, which is therefore still running (STOPPING): a start-like
+            # command or initialize must be refused until the run thread has actually stopped
+            return AssertionError("accepted-while-stopping:" + cmd[5:])
+        return second if not isinstance(second, Exception) or type(second).__name__ != "DSOLError" else None
     try:
         if cmd == "stop":
             sim.stop()
